@@ -1,6 +1,7 @@
 import Pyxv.Model.OpsXml
 import Pyxv.Model.OpsForm
 import Pyxv.Model.OpsJVal
+import Pyxv.Model.OpsToJson
 /-!
 Driver: one JSON request per line on stdin, one JSON reply per line on stdout.
 `{"op": "<name>", …}` → `{"ok": true, "v": …}` | `{"ok": false, "err": "…"}`.
@@ -8,7 +9,7 @@ Driver: one JSON request per line on stdin, one JSON reply per line on stdout.
 open Lean Pyxv
 
 def handlers : List (String → Json → Option (Except String Json)) :=
-  [Xml.opsXml, Form.opsForm, JV.opsJVal]
+  [Xml.opsXml, Form.opsForm, JV.opsJVal, ToJson.opsToJson]
 
 def dispatch (op : String) (j : Json) : Except String Json :=
   let rec go : List (String → Json → Option (Except String Json)) → Except String Json
